@@ -210,7 +210,12 @@ class ComponentState(object):
                         except TypeError as error:
                             pass
 
-                    return componentState
+                    # VV: Emit a snapshot. The emission crosses two observe_on() hops before StateFilter() computes
+                    # what changed; handing out the same mutable dictionary lets the next update (e.g. the engine
+                    # dying right after a restart) overwrite an emission that is still in flight, so both look
+                    # identical, the RUNNING->POSTMORTEM transition is never reported and the component stays in
+                    # POSTMORTEM forever.
+                    return dict(componentState)
 
                 return UpdateStateBasedOnEngine
 
